@@ -44,6 +44,10 @@ CLAIMS = {
          "6.C10", "POST on the encoder + CLEAN language VCs on the parser's result fields"),
  "C16": ("proof", "Same obligations as C08: in every line shape the padding, byte column, annotation and comment are universally quantified variables that do not occur in the result term (addr, mnemonic, operand token only); label / blank / header / section / elision lines yield no instruction. Scope: listings with a raw-byte column (grammar G); free text that does not contain the keyword data16.",
          "6.C16", "symbolic execution on structured strings: presentation variables absent from the result"),
+ "C13": ("other", "Deductive: the single-step functions of MacroExpander (string positions on structured strings, dict positions with list children as symbolic sequences, key-with-times and call forms) are proved equal to the functional substitution subst1 with the recursion replaced by its contract; resolve_all_macros = ordered fold over a deep copy; extra macro files prepended in file order (symbolic file list). Bounded (never counted as proved): MacroArgsResolver against simultaneous substitution and whole expansions against the reference inliner on enumerated rules (vf/sweeps.py).",
+         "6.C13", "symbolic execution with recursion stubs + bounded comparison with a reference inliner"),
+ "C19": ("proof", "resolve_all_macros: names not starting with '@' rejected; on normal return the returned tree is exactly the tree that _collect_macro_names found free of '@' names; _collect_macro_names proved to return every '@' string among list items, dict values and dict keys at any depth (recursion by contract, list loop by invariant); ghost effect of each expansion step on rule_macros.",
+         "6.C19", "POST + loop invariant on the real scan function; structural induction by recursion stub"),
 }
 TODO = {}
 checks = []
